@@ -134,7 +134,7 @@ fn inline(r: &mut Rng, depth: usize, multi: bool) -> String {
         19 => format!("~~{}~~", sub(r)),
         20 => format!("[{}][{}]", sub(r), r.ps(&["r1", "R1", "nope"])),
         21 => r.ps(&["[r1]", "[r1][]", "[nope]"]).to_string(),
-        22 => r.ps(&["www.example.com/a?b=c", "http://x.y/z", "https://a.b", "a@b.co", "ftp://f.g/h", "ann@example.org or bob@example.org today", "a@b.co c@d.eu e", "mu\u{17e} *\u{17e}ena* \u{307e}"]).to_string(),
+        22 => r.ps(&["www.example.com/a?b=c", "http://x.y/z", "https://a.b", "a@b.co", "ftp://f.g/h", "news://n.o/p", "see twitter://x.y now", "rawr://r.s", "ann@example.org or bob@example.org today", "a@b.co c@d.eu e", "mu\u{17e} *\u{17e}ena* \u{307e}"]).to_string(),
         23 => format!("[^{}]{}", r.ps(&["a", "b", "nope"]), r.ps(&["", "", "", "[b]", "[]", "[^b]", "[r1]", "(u)", "[nope]"])),
         24 => r.ps(&["\\*", "\\_", "\\\\", "\\[", "&amp;", "&#35;", "&copy;", "&nosuch;"]).to_string(),
         25 => format!("{}{}{}", words(r), brk(r), words(r)),
@@ -359,7 +359,42 @@ pub fn gen_doc(r: &mut Rng, g: &GenCfg) -> (String, &'static str) {
             s.insert(pos, '\u{0}');
         }
     }
+    if r.chance(1, 10) {
+        s = tabify(r, &s);
+    }
     line_endings(r, &s)
+}
+
+/// Tabs where the generator wrote spaces in line prefixes: after every `>` marker, for the indentation
+/// of continuation lines, or both (consistently over the document, so table rows keep their header's prefix).
+fn tabify(r: &mut Rng, s: &str) -> String {
+    let mode = r.below(3);
+    let mut out = String::with_capacity(s.len());
+    for l in s.split_inclusive('\n') {
+        let b = l.as_bytes();
+        let mut i = 0;
+        loop {
+            if i + 1 < b.len() && b[i] == b'>' && b[i + 1] == b' ' && mode != 1 {
+                out.push_str(">\t");
+                i += 2;
+            } else if i < b.len() && b[i] == b'>' {
+                out.push('>');
+                i += 1;
+            } else if i + 1 < b.len() && b[i] == b' ' && b[i + 1] == b' ' && mode != 0 {
+                while i < b.len() && b[i] == b' ' {
+                    i += 1;
+                }
+                out.push('\t');
+            } else if i < b.len() && b[i] == b' ' {
+                out.push(' ');
+                i += 1;
+            } else {
+                break;
+            }
+        }
+        out.push_str(&l[i..]);
+    }
+    out
 }
 
 // ---------------------------------------------------------------------------------------------
@@ -422,6 +457,92 @@ fn line_span<'a>(lines: &[&'a str], a: usize, b: usize) -> Vec<&'a str> {
         return vec![];
     }
     lines[a - 1..b].to_vec()
+}
+
+/// Visual column (0-based, tab stops every 4) reached after `upto` bytes of `line`.
+fn vis_col(line: &str, upto: usize) -> usize {
+    let mut col = 0;
+    for (i, c) in line.bytes().enumerate() {
+        if i >= upto {
+            break;
+        }
+        if c == b'\t' {
+            col = (col / 4 + 1) * 4;
+        } else {
+            col += 1;
+        }
+    }
+    col
+}
+
+/// Does line `ln` (1-based) carry the prefix of every container of `chain` (as many `>` as there are
+/// block quotes, indentation up to the content column of the innermost list item)? `None` when the
+/// chain has a container this simple reading does not cover.
+fn has_container_prefix(p: &Parsed, chain: &[usize], lines: &[&str], ln: usize) -> Option<bool> {
+    let line = lines.get(ln - 1)?;
+    let mut quotes = 0usize;
+    let mut item: Option<usize> = None;
+    for &i in chain {
+        match p.nodes[i].kind {
+            "block_quote" => quotes += 1,
+            "item" | "taskitem" => {
+                if item.is_none() {
+                    item = Some(i);
+                }
+            }
+            "footnote_definition" | "alert" | "description_details" | "description_item" | "description_term" | "multiline_block_quote" | "table" | "table_cell" | "table_row" => return None,
+            _ => {}
+        }
+    }
+    // deeper nestings with tabs have defects of their own on the pinned tree (a tab split between two
+    // containers): only a single container is read here
+    let items = chain.iter().filter(|&&i| matches!(p.nodes[i].kind, "item" | "taskitem")).count();
+    if quotes + items != 1 {
+        return None;
+    }
+    let b = line.as_bytes();
+    let mut k = 0;
+    let mut gts = 0;
+    while k < b.len() && (b[k] == b' ' || b[k] == b'\t' || (b[k] == b'>' && gts < quotes)) {
+        if b[k] == b'>' {
+            gts += 1;
+        }
+        k += 1;
+    }
+    if gts < quotes {
+        return Some(false);
+    }
+    if let Some(i) = item {
+        let it = &p.nodes[i];
+        let first = lines.get(it.sp.0.checked_sub(1)?)?;
+        let fb = first.as_bytes();
+        let mut m = it.sp.1.checked_sub(1)?;
+        if m >= fb.len() {
+            return None;
+        }
+        if matches!(fb[m], b'-' | b'+' | b'*') {
+            m += 1;
+        } else {
+            while m < fb.len() && fb[m].is_ascii_digit() {
+                m += 1;
+            }
+            if m >= fb.len() || !matches!(fb[m], b'.' | b')') {
+                return None;
+            }
+            m += 1;
+        }
+        let marker_end = vis_col(first, m);
+        let mut e = m;
+        while e < fb.len() && (fb[e] == b' ' || fb[e] == b'\t') {
+            e += 1;
+        }
+        let w = vis_col(first, e) - marker_end;
+        let content = if e >= fb.len() || w >= 5 || w == 0 { marker_end + 1 } else { marker_end + w };
+        if vis_col(line, k) < content {
+            return Some(false);
+        }
+    }
+    Some(true)
 }
 
 fn is_container(kind: &str) -> bool {
@@ -721,7 +842,9 @@ pub fn classify(md: &str, _o: &Opts, p: &Parsed, _clause: &str, kind: &str, sp: 
                         }
                     };
                     let first = pre(b.sp.0);
-                    if (b.sp.0..=c.sp.2.min(lines.len())).any(|l| pre(l) != first) && c.sp.0 > b.sp.0 {
+                    // (with a tab among those prefixes the columns are off for the tab's sake: the class below)
+                    let tab_in_prefix = (b.sp.0..=c.sp.2.min(lines.len())).any(|l| l >= 1 && lines[l - 1].bytes().take_while(|c| *c == b' ' || *c == b'\t' || *c == b'>').any(|c| c == b'\t'));
+                    if (b.sp.0..=c.sp.2.min(lines.len())).any(|l| pre(l) != first) && c.sp.0 > b.sp.0 && !tab_in_prefix {
                         return "multi-line-literal-span-uneven-prefixes".into();
                     }
                 }
@@ -799,6 +922,21 @@ pub fn classify(md: &str, _o: &Opts, p: &Parsed, _clause: &str, kind: &str, sp: 
                     l.bytes().take_while(|c| *c == b' ' || *c == b'\t' || *c == b'>').any(|c| c == b'\t')
                 });
                 if tabbed {
+                    // the recorded mechanism concerns lazy continuation lines and first lines; a later line of a
+                    // paragraph that carries the prefix of every container it is in is measured on its own
+                    let ln = sp.0;
+                    let this_line_tabbed = ln >= 1 && ln <= lines.len() && lines[ln - 1].bytes().take_while(|c| *c == b' ' || *c == b'\t' || *c == b'>').any(|c| c == b'\t');
+                    if b.kind == "paragraph" && ln > b.sp.0 && this_line_tabbed && has_container_prefix(p, &chain, &lines, ln) == Some(true) {
+                        return "tab-in-line-prefix:continuation-line-with-its-container-prefix".to_string();
+                    }
+                    if b.kind == "table" {
+                        let pre = |l: &str| l.bytes().take_while(|c| *c == b' ' || *c == b'\t' || *c == b'>').collect::<Vec<u8>>();
+                        let tl = line_span(&lines, b.sp.0, b.sp.2.max(sp.2));
+                        let containers = chain.iter().filter(|&&i| (is_container(p.nodes[i].kind) || p.nodes[i].kind == "multiline_block_quote") && !matches!(p.nodes[i].kind, "list" | "description_list")).count();
+                        if containers == 1 && tl.len() >= 2 && tl.iter().all(|l| pre(l) == pre(tl[0])) {
+                            return "tab-in-line-prefix:table-lines-share-one-prefix".to_string();
+                        }
+                    }
                     return "tab-in-line-prefix".to_string();
                 }
             }
